@@ -81,6 +81,7 @@ def run(ck, fb):
     r16g(ck, fb)
     r16h(ck, fb)
     r16i(ck, fb)
+    r16j(ck, fb)
     r16e(ck, fb)
 
 
@@ -865,3 +866,71 @@ def r16i(ck, fb):
                'the token is taken from the first carrier that is present and looked up once: Authorization: Basic .. with a valid accessToken in the '
                'query, an empty accessToken header with a valid token in the query, an empty accessToken= in the query with a valid token in the form, '
                'a garbage header with a valid token in the form - all four are answered 403', 'a failed lookup is followed by the next carrier')
+
+
+def _len_decisions(fb, b, op, depth=0, seen=None):
+    """length comparisons that decide which value an operand gets: guards of its definitions when it has several, and the same inside the
+    same-crate helper that produces it"""
+    out = []
+    if depth > 4:
+        return out
+    d = cfg.describe_operand(b, op)
+
+    def len_atoms(x, bb):
+        r = []
+        for a in cfg.guard_atoms(x, bb):
+            if a[0] == 'cmp' and a[1] in ('Lt', 'Le', 'Gt', 'Ge'):
+                txt = cfg.fmt_desc(a[2]) + ' ' + cfg.fmt_desc(a[3])
+                if re.search(r'::len\b|::len\)|String::len|str>::len|<impl str>::len', txt):
+                    r.append((x, bb, cfg.fmt_atom(a)))
+        return r
+    if d['k'] == 'multi':
+        for (kind, bb, j, node) in d.get('defs', []):
+            out += len_atoms(b, bb)
+            if kind == 'call' and node.get('args'):
+                pass
+    if d['k'] == 'call':
+        nm = cfg.callee_name(d['term']) or ''
+        hb = fb.bodies.get(nm)
+        if hb is not None and not hb.parent:
+            for (kind, bb, j, node) in hb.defs.get(0, []):
+                out += len_atoms(hb, bb)
+                if kind == 'stmt' and node['rv']['k'] in ('use', 'cast'):
+                    out += _len_decisions(fb, hb, node['rv']['op'], depth + 1)
+        elif d['term'].get('args'):
+            out += _len_decisions(fb, b, d['term']['args'][0], depth + 1)
+    return out
+
+
+def r16j(ck, fb, R='R16j'):
+    ck.rule(R, 'the cluster token that protects cluster-internal gRPC requests is the one the operator configured: AppSysConfig::init_from_env takes '
+               'RNACOS_CLUSTER_TOKEN as it is - no length test decides whether the configured value is kept (the backup token has such a rule: a '
+               'short one switches the backup API off, which fails closed; the same rule on the cluster token switches the check off, which '
+               'fails open: a RaftRouteRequest without any token is served)')
+    bs = [b for b in fb.bodies.values() if b.name.endswith('AppSysConfig::init_from_env') and not b.parent]
+    if not ck.require(len(bs) == 1, R, 'anchor:init_from_env', '-', 'AppSysConfig::init_from_env not found'):
+        return
+    b = bs[0]
+    ck.analysed(b)
+    n = 0
+    for (i, j, st) in b.aggregates(r'common::AppSysConfig$'):
+        rv = st['rv']
+        if 'cluster_token' not in rv['fields']:
+            continue
+        n += 1
+        op = rv['ops'][rv['fields'].index('cluster_token')]
+        chain = util.value_chain(fb, b, op)
+        helpers = [fb.bodies.get(cfg.callee_name(t) or '') for (_b, t) in chain]
+        from_env = any((cfg.callee_name(t) or '').endswith('env::var') for (_b, t) in chain) or \
+            (any('RNACOS_CLUSTER_TOKEN' in str(c) for c in util.const_strs(b)) and
+             any(y.calls(r'std::env::var$') for h in helpers if h is not None for y in util.region(fb, h, 1)))
+        names = []
+        for (cb, t) in chain:
+            if (cfg.callee_name(t) or '').endswith('env::var') and t.get('args'):
+                names.append(cfg.fmt_desc(cfg.describe_operand(cb, t['args'][0])))
+        ck.require(from_env, R, 'init_from_env:cluster_token-from-env', b.where(i), 'cluster_token is not read from the environment')
+        dec = _len_decisions(fb, b, op)
+        ck.require(not dec, R, 'init_from_env:cluster_token-kept-as-configured', dec[0][0].where(dec[0][1]) if dec else b.where(i),
+                   'whether the configured cluster token is used depends on its length (%s): a token the operator set is silently dropped, and with '
+                   'an empty cluster token the cluster check is skipped altogether' % (dec[0][2] if dec else ''), 'taken as configured')
+    ck.floor(R, 'AppSysConfig built from the environment', n, 1)
